@@ -761,7 +761,7 @@ func (c *Ctx) declOf(p *packages.Package, fn *types.Func) *ast.FuncDecl {
 
 type stageLoop struct {
 	fi       *FuncInfo
-	rng      *ast.RangeStmt
+	rng      ast.Stmt // the range statement, or the index loop `for i := …; i < len(pipeline); i++`
 	handled  map[string]bool // nil-test branch builds a stage
 	rejected map[string]bool // nil-test (possibly conjoined) guards `return false`
 	breakAt  map[string]bool // exact nil-test guards a return of the loop index
@@ -783,23 +783,50 @@ func (c *Ctx) stageLoops() []*stageLoop {
 			continue
 		}
 		ast.Inspect(fi.Decl.Body, func(n ast.Node) bool {
-			rs, ok := n.(*ast.RangeStmt)
-			if !ok {
-				return true
-			}
-			tv, ok := info.Types[rs.X]
-			if !ok {
-				return true
-			}
-			sl, ok := tv.Type.Underlying().(*types.Slice)
-			if !ok || namedOf(sl.Elem()) != pipeT {
-				return true
-			}
-			s := &stageLoop{fi: fi, rng: rs, handled: map[string]bool{}, rejected: map[string]bool{}, breakAt: map[string]bool{}, tested: map[string]bool{}}
+			var loopStmt ast.Stmt
+			var loopBody *ast.BlockStmt
 			var idxObj types.Object
-			if id, ok := rs.Key.(*ast.Ident); ok && id.Name != "_" {
-				idxObj = info.Defs[id]
+			isPipeline := func(e ast.Expr) bool {
+				tv, ok := info.Types[e]
+				if !ok {
+					return false
+				}
+				sl, ok := tv.Type.Underlying().(*types.Slice)
+				return ok && namedOf(sl.Elem()) == pipeT
 			}
+			switch rs := n.(type) {
+			case *ast.RangeStmt:
+				if !isPipeline(rs.X) {
+					return true
+				}
+				loopStmt, loopBody = rs, rs.Body
+				if id, ok := rs.Key.(*ast.Ident); ok && id.Name != "_" {
+					idxObj = info.Defs[id]
+				}
+			case *ast.ForStmt:
+				// for i := 0; i < len(pipeline); i++ { … pipeline[i] … }
+				be, ok := rs.Cond.(*ast.BinaryExpr)
+				if !ok || be.Op != token.LSS {
+					return true
+				}
+				lc, ok := ast.Unparen(be.Y).(*ast.CallExpr)
+				if !ok || len(lc.Args) != 1 || !isPipeline(lc.Args[0]) {
+					return true
+				}
+				if fid, ok := lc.Fun.(*ast.Ident); !ok || fid.Name != "len" {
+					return true
+				}
+				id, ok := ast.Unparen(be.X).(*ast.Ident)
+				if !ok {
+					return true
+				}
+				loopStmt, loopBody = rs, rs.Body
+				idxObj = info.Uses[id]
+			default:
+				return true
+			}
+			s := &stageLoop{fi: fi, rng: loopStmt, handled: map[string]bool{}, rejected: map[string]bool{}, breakAt: map[string]bool{}, tested: map[string]bool{}}
+			rs := struct{ Body *ast.BlockStmt }{loopBody}
 			var walk func(pk *packages.Package, info *types.Info, root ast.Node, depth int)
 			var examine func(pk *packages.Package, info *types.Info, cond ast.Expr, body []ast.Stmt)
 			walk = func(pk *packages.Package, info *types.Info, root ast.Node, depth int) {
